@@ -3,9 +3,9 @@ value and a unit (scale, dimension) with the operator semantics established for 
 converted when the dimensions agree, units multiply otherwise, sums of different dimensions raise)."""
 from __future__ import annotations
 
-from ..models import ModelEval, PyObj, Marker, Raised
+from ..models import ModelEval, PyObj, Raised
 from ..peval import Model, Unsupported, ProgramRaised
-from ..poly import Poly, Rat, S, Fn
+from ..poly import S, Fn
 from ..qeval import UnitV, ArrayV, arr_mul, arr_add, DimError, R, DIMLESS
 from ..source import AnalysisError
 from .core_models import VECTOR_Q, core_hooks
